@@ -82,9 +82,10 @@ PROPERTIES["C06"] = {
     "rule": "one evaluation = one input (generated XML/OPL/PBF/o5m file, optionally gz/bz2, or a repository fixture, or a truncation of one) read twice through the real Reader: a reference run (one piece, non-preemptive) and a run whose fd reads / decompressor calls return tape-chosen piece sizes (fixed 1..65536, random, explicit cut positions, EINTR) under a seeded schedule; the two outcomes (header+objects or exception type+message) must be equal. "
             "Non-trivial = at least one short read / clamp fired or >= 2 threads were enabled at once; distinct = distinct event-log signature (threads x sync ops x file ops).",
     "modes": [
-        {"mode": "c06", "harness": "reader", "runs": {"quick": 40000, "thorough": 1500000}},
+        {"mode": "c06", "harness": "reader", "runs": {"quick": 40000, "thorough": 1500000}, "share": 0.6},
+        {"mode": "c06enum", "harness": "reader", "runs": {"quick": 400, "thorough": 20000}, "stall_s": 300, "share": 0.4},
     ],
-    "expected_probes": ["reference outcome is an exception", "reference outcome is data"],
+    "expected_probes": ["reference outcome is an exception", "reference outcome is data", "enumerated cut points"],
     "components_real": READER_REAL,
     "components_stubbed": READER_STUB,
     "assumptions": COMMON_ASSUMPTIONS + ["piece sizes below 64 KiB are obtained through hook H4 (input_buffer_size) or by clamping gzread/BZ2_bzRead/inflate/BZ2_bzDecompress output lengths; one run in 16 keeps the shipped 1 MiB size"],
@@ -96,9 +97,10 @@ PROPERTIES["C05"] = {
     "rule": "one evaluation = one multi-buffer input read by the real Reader under a seeded schedule with tape-chosen pool size (1..32), queue bounds, PBF pool use, buffers_type, entity mask (16 subsets), read_meta, read()/InputIterator and parser buffer sizes (hook H2), compared object by object with a non-preemptive single-threaded reference decode of the same bytes. "
             "Non-trivial = >= 2 threads enabled at once; distinct = distinct schedule signature.",
     "modes": [
-        {"mode": "c05", "harness": "reader", "runs": {"quick": 25000, "thorough": 800000}},
+        {"mode": "c05", "harness": "reader", "runs": {"quick": 25000, "thorough": 800000}, "share": 0.7},
+        {"mode": "c05convert", "harness": "reader", "runs": {"quick": 10000, "thorough": 400000}, "share": 0.3},
     ],
-    "expected_probes": ["three or more buffers delivered", "PBF decoded with >= 2 pool threads", "condvar timeout fired"],
+    "expected_probes": ["three or more buffers delivered", "PBF decoded with >= 2 pool threads", "condvar timeout fired", "Reader and Writer shared one pool"],
     "components_real": READER_REAL,
     "components_stubbed": READER_STUB,
     "assumptions": COMMON_ASSUMPTIONS,
@@ -110,12 +112,13 @@ PROPERTIES["C07"] = {
     "rule": "one evaluation = one Reader life cycle script (optional header(), k reads, then read-to-EOF / close() / destructor / close()+read() / close()+header()) on one input with at most one hard fault (EIO on the j-th read(2), close(2) failing, truncation at L, one corruption op) plus soft perturbation (short reads, clamped decompressor output, small queues and buffers), under a seeded schedule. Oracles: every call returns, no thread or fd left, storage-fault outcome equals the reference outcome, a fired I/O error is reported by some call, no data after an error, no read(2) after close(). "
             "Non-trivial = a fault fired or >= 2 threads enabled at once; distinct = distinct event-log signature.",
     "modes": [
-        {"mode": "c07", "harness": "reader", "runs": {"quick": 40000, "thorough": 1500000}},
+        {"mode": "c07", "harness": "reader", "runs": {"quick": 40000, "thorough": 1500000}, "share": 0.6},
+        {"mode": "c07enum", "harness": "reader", "runs": {"quick": 600, "thorough": 20000}, "stall_s": 300, "share": 0.4},
     ],
-    "expected_probes": ["hard fault fired", "exception reached the caller", "consumer abandoned the Reader early"],
+    "expected_probes": ["hard fault fired", "exception reached the caller", "consumer abandoned the Reader early", "enumerated truncation lengths", "enumerated EIO read indices"],
     "components_real": READER_REAL,
     "components_stubbed": READER_STUB,
-    "assumptions": COMMON_ASSUMPTIONS + ["fault positions (j, L, corruption offsets) and stop points k are sampled by the seed, not enumerated"],
+    "assumptions": COMMON_ASSUMPTIONS + ["mode c07: fault positions (j, L, corruption offsets) and stop points k are sampled by the seed; mode c07enum: every truncation length and every failing read index is enumerated for small inputs (<= 900 bytes) with the script header + read to EOF + close"],
 }
 
 PROPERTIES["C03"] = {
@@ -139,10 +142,10 @@ PROPERTIES["C09"] = {
     "rule": "one evaluation = one compressed file built from 1-5 payload pieces (sizes around 0, 1, 4096, 5000, 10240, 65536 and random; empty pieces allowed), each piece compressed by zlib/libbz2 called directly by the harness and concatenated, read through the real gzip/bzip2 Decompressor classes from a simulated fd (short reads, hook-varied output buffer size incl. the shipped 1 MiB) or from memory (clamped output window), without fault, truncated at a length biased to stream boundaries, or with one corrupted byte; mode 'own' reads back what the library's own Compressor wrote; mode 'enum' enumerates for one small file every truncation length and three corruptions of every byte. "
             "Non-trivial = multi-stream, faulted, or non-default piece size; distinct = distinct event-log signature (file ops).",
     "modes": [
-        {"mode": "clean", "harness": "c09", "runs": {"quick": 60000, "thorough": 1500000}},
-        {"mode": "fault", "harness": "c09", "runs": {"quick": 60000, "thorough": 1500000}},
-        {"mode": "own", "harness": "c09", "runs": {"quick": 15000, "thorough": 300000}},
-        {"mode": "enum", "harness": "c09", "runs": {"quick": 2500, "thorough": 60000}},
+        {"mode": "clean", "harness": "c09", "runs": {"quick": 60000, "thorough": 1500000}, "share": 0.3},
+        {"mode": "fault", "harness": "c09", "runs": {"quick": 60000, "thorough": 1500000}, "share": 0.3},
+        {"mode": "own", "harness": "c09", "runs": {"quick": 15000, "thorough": 300000}, "share": 0.1},
+        {"mode": "enum", "harness": "c09", "runs": {"quick": 2500, "thorough": 60000}, "share": 0.3},
     ],
     "expected_probes": ["stream ends exactly on a 4096/5000/8192-byte boundary", "multi-stream file", "truncated file", "corrupted file", "truncation detected", "corruption detected", "enumerated fault points"],
     "components_real": ["GzipDecompressor, GzipBufferDecompressor, Bzip2Decompressor, Bzip2BufferDecompressor, GzipCompressor, Bzip2Compressor, CompressionFactory", "zlib and libbz2 (statically linked, unmodified)", "glibc stdio over a cookie stream"],
@@ -159,12 +162,13 @@ PROPERTIES["C08"] = {
     "rule": "one evaluation = one generated data set written by the real Writer (XML, XML change, OPL, PBF x none/gzip/bzip2 x fsync x feeding script of whole buffers / single items / flush()) under a seeded schedule with soft perturbation (short writes, EINTR on the plain path) and at most one hard fault: the write reaching byte offset o of the would-be output fails (ENOSPC/EFBIG/EIO, with or without a preceding partial write), fsync fails, the n-th close fails, compress2() fails in a pool worker, or an object the OPL encoder cannot encode. o is drawn over the size learnt from a fault-free reference write of the same script. "
             "Non-trivial = a fault fired or >= 2 threads enabled at once; distinct = distinct event-log signature.",
     "modes": [
-        {"mode": "c08", "harness": "writer", "runs": {"quick": 40000, "thorough": 1500000}},
+        {"mode": "c08", "harness": "writer", "runs": {"quick": 30000, "thorough": 1500000}, "share": 0.6},
+        {"mode": "c08enum", "harness": "writer", "runs": {"quick": 500, "thorough": 20000}, "stall_s": 300, "share": 0.4},
     ],
-    "expected_probes": ["hard fault fired", "exception reached the caller", "fault-free or soft-only run succeeded"],
+    "expected_probes": ["hard fault fired", "exception reached the caller", "fault-free or soft-only run succeeded", "enumerated fault points"],
     "components_real": WRITER_REAL,
     "components_stubbed": READER_STUB + ["compress2() failure injected by a link-time wrapper"],
-    "assumptions": COMMON_ASSUMPTIONS + ["fault offsets are sampled by the seed over the whole would-be output (with a bias to the last 16 bytes), not enumerated byte by byte", "write() returning 0 for a non-zero count is not injected (cannot happen on regular files)"],
+    "assumptions": COMMON_ASSUMPTIONS + ["mode c08: fault offsets are sampled by the seed over the whole would-be output (with a bias to the last 16 bytes); mode c08enum: every byte offset is enumerated for small workloads (<= 6000 output bytes), one errno/partial/transient variant per workload", "write() returning 0 for a non-zero count is not injected (cannot happen on regular files)"],
 }
 
 PROPERTIES["C01"] = {
@@ -187,9 +191,9 @@ PROPERTIES["C12"] = {
     "rule": "one evaluation = one insertion history of distinct ids (dense, around multiples of 2^16 and of the 2^20-element growth steps, sparse 32-bit, mixed, clustered, boundary; sorted/reversed/shuffled) applied to a tape-chosen subset of the registered map types created through MapFactory, sort(), then get()/get_noexcept() over inserted ids, their neighbours and never-inserted ids compared with a std::map; each dumpable map is dumped (as list / as array, through the simulated fd with short writes and EINTR) and reloaded as sparse_file_array / dense_file_array and compared again; FlexMem's dense switch is crossed through hook H3. Environment decisions: in two runs of three every mmap()/mremap() lands at a fresh, never reused address (a pointer kept across a resize faults under ASan); mode 'nospace' lets fstatvfs report a full disk at the n-th growth step; mode 'handler' checks NodeLocationsForWays with positive and negative ids over pairs of map types and node orders. "
             "Non-trivial = every run; distinct = distinct event-log signature (file ops of dump/reload).",
     "modes": [
-        {"mode": "maps", "harness": "c12", "runs": {"quick": 1400, "thorough": 40000}, "stall_s": 300},
-        {"mode": "handler", "harness": "c12", "runs": {"quick": 3000, "thorough": 100000}},
-        {"mode": "nospace", "harness": "c12", "runs": {"quick": 600, "thorough": 10000}},
+        {"mode": "maps", "harness": "c12", "runs": {"quick": 1400, "thorough": 40000}, "stall_s": 300, "share": 0.7},
+        {"mode": "handler", "harness": "c12", "runs": {"quick": 3000, "thorough": 100000}, "share": 0.15},
+        {"mode": "nospace", "harness": "c12", "runs": {"quick": 600, "thorough": 10000}, "share": 0.15},
     ],
     "expected_probes": ["mremap moved the mapping", "mapping placed at a fresh, never reused address", "dense mmap/file vector grew beyond its first 1 Mi elements", "dumped as array and reloaded", "dumped as list and reloaded", "full disk reported as std::system_error"],
     "components_real": ["all registered index map types (dense/sparse x mem/mmap/file, sparse_mem_map, flex_mem) through MapFactory", "osmium::MemoryMapping / mmap_vector_base / mmap_vector_file on real temporary files and real pages", "NodeLocationsForWays", "reliable_write for dumps"],
